@@ -1,4 +1,5 @@
 import FV.Proofs.Producers
+import FV.Proofs.ProducersDie
 /-
   C19 — Every document FRAME produces is accepted back and says the same thing.
   Property theorems only (helper lemmas live in `FV/Proofs/Producers.lean`).
@@ -15,12 +16,37 @@ import FV.Proofs.Producers
   "every referenced index lies in [first index, next free index)" — `gen_*_accepted` (the reader returns exactly the
   netlist of the index-level specification) and `gen_*_topology` (that netlist is well formed and is the intended graph).
 
+  WHAT THE PURITY STATEMENTS ARE.  The functional writers (`writeDie`, `writeAlloc`, `dumpNamedEdges`, `writeFPEF`) are
+  DEFINED as `obj ↦ (tree, obj)`; that their second component is `obj` (`produce_pure_*`, `produce_twice_*`) holds by
+  `rfl` — it is a frame condition of the MODEL, stated as `lemma`s (not counted as proof obligations), and it is the
+  harness's deep before/after snapshots and write-twice comparisons that tie it to the code.  Purity statements WITH
+  content are those about programs on a mutable representation:
+  * `die_writer_frame` / `die_writer_twice`: `Die.write_yaml` as a program on a store of Python list objects
+    (`blockages + specialized_regions` allocates a new list): every pre-existing list object is unchanged;
+    `die_writer_inplace_variant_alters`: the `rectangles = self.blockages; rectangles += …` variant is a different program
+    and does alter the die;
+  * `namededges_orig_alters`: the code as found (aliasing the edge's own list) alters the edge.
+  No purity theorem is stated for netgen (pure functions of the size) or the rect / legalfloor emitters (string
+  building): for those the clause is harness-only.
+
+  WHICH READER.  `die_roundtrip` / `alloc_roundtrip` are against the PARSING layer (`parse_yaml_die` + the blockage split;
+  `Allocation._parse_yaml_tree`).  `die_roundtrip_constructor` composes the die writer with the CONSTRUCTOR model of C01
+  (`FV/Model/Die.lean`): the written document parses to the same size / blockages / specialised regions and the
+  constructor (`dieCore`, `detPicks`: grid, ground regions, self-check) returns on it exactly what it returns on the
+  source.
+
+  NOT YET PROVED
+  * `alloc_roundtrip_constructor` — `mkAllocation (raw cells of the written document) = mkAllocation (raw cells of the
+    source)` for the constructor model of C02/C12 (`FV/Model/Alloc.lean`: bounding box, no-overlap, areas/centres).
+    Blocked: `FV.Model.Alloc` cannot be imported together with `FV.Model.Yaml` (both declare `FV.validIdent`; the rename
+    is pending with the C02 builder).  The statement needs nothing beyond `alloc_roundtrip` (the constructor is a function
+    of the parsed cells and the tolerance state only).
+
   OUTSIDE these theorems (exercised on every sample by harness/props/c19.py, not proved):
   * the text layer (ruamel dump / safe load, `str(float)` inside the string-built netlists);
-  * the geometric self-checks of the die / allocation readers (`Die._check_rectangles`, ground-region derivation,
-    `Allocation._check_no_overlap`): the theorems give "the reader sees exactly the numbers of the source object", so any
-    function of those numbers has the value it had when the source object was built; that ground regions re-derived after
-    a refinement cover the same region is compared exactly by the harness;
+  * the geometric checks of `Allocation.__init__` (see NOT YET PROVED) and, for a die written AFTER a refinement, that the
+    ground regions the constructor re-derives cover the same region as the refined ones (compared exactly by the harness;
+    `die_roundtrip_constructor` says the constructor sees the same size / blockages / specialised regions);
   * the polygon decomposition of FloorSet blocks (`strop_decomposition`, property C15) and the density factor `alpha`
     are inputs of `FsInst`; hard blocks need `noOverlap εA` of their decomposition as a hypothesis;
   * for ring-star only pin-level well-formedness is proved, not the absence of parallel nets.
@@ -480,17 +506,62 @@ theorem alloc_depth_omitted (c : Cell α) :
 
 /-! ### producing never alters the object; producing twice gives identical documents -/
 
-theorem produce_pure_die (d : DieObj α) : (writeDie d).2 = d := rfl
-theorem produce_pure_alloc (cs : List (Cell α)) : (writeAlloc cs).2 = cs := rfl
-/-- REPAIRED `dump_yaml_namededges` leaves the edges as they were … -/
-theorem produce_pure_namededges (es : List (NEdge α)) : (dumpNamedEdges es).2 = es := rfl
-/-- … so `write_yaml_FPEF` leaves the nets of the instance as `_parse_connections` built them. -/
-theorem produce_pure_floorset (eps : α) (f : FsInst α) : (writeFPEF eps f).2 = fsNets f := rfl
-
-theorem produce_twice_die (d : DieObj α) : (writeDie (writeDie d).2).1 = (writeDie d).1 := rfl
-theorem produce_twice_alloc (cs : List (Cell α)) : (writeAlloc (writeAlloc cs).2).1 = (writeAlloc cs).1 := rfl
-theorem produce_twice_namededges (es : List (NEdge α)) :
+/-! frame conditions of the functional models: true by definition (`rfl`), see the header. -/
+lemma produce_pure_die (d : DieObj α) : (writeDie d).2 = d := rfl
+lemma produce_pure_alloc (cs : List (Cell α)) : (writeAlloc cs).2 = cs := rfl
+lemma produce_pure_namededges (es : List (NEdge α)) : (dumpNamedEdges es).2 = es := rfl
+lemma produce_pure_floorset (eps : α) (f : FsInst α) (t : YVal α) (es : List (NEdge α))
+    (h : writeFPEF eps f = .ok (t, es)) : es = fsNets f := by
+  unfold writeFPEF at h
+  split at h
+  · cases h
+  · simp only [Except.ok.injEq, Prod.mk.injEq] at h; exact h.2.symm
+lemma produce_twice_die (d : DieObj α) : (writeDie (writeDie d).2).1 = (writeDie d).1 := rfl
+lemma produce_twice_alloc (cs : List (Cell α)) : (writeAlloc (writeAlloc cs).2).1 = (writeAlloc cs).1 := rfl
+lemma produce_twice_namededges (es : List (NEdge α)) :
     (dumpNamedEdges (dumpNamedEdges es).2).1 = (dumpNamedEdges es).1 := rfl
+
+/-- `Die.write_yaml` as a program on a store of Python list objects (`self.blockages + self.specialized_regions` is a
+    NEW list): it emits the tree of the functional writer, every list object that existed before the call is
+    unchanged, and so is the die. -/
+theorem die_writer_frame (s : Store (VRect α)) (d : DieRef α) :
+    (writeDieS s d).1 = (writeDie (d.deref s)).1 ∧
+    (∀ a, a < s.cells.length → (writeDieS s d).2.get a = s.get a) ∧
+    (d.blockages < s.cells.length → d.specialised < s.cells.length → d.deref (writeDieS s d).2 = d.deref s) :=
+  ⟨writeDieS_tree s d, fun a ha => writeDieS_frame s d a ha, fun hb hs => writeDieS_pure s d hb hs⟩
+
+/-- writing twice (the second time in the store the first call left) gives identical documents. -/
+theorem die_writer_twice (s : Store (VRect α)) (d : DieRef α) (hb : d.blockages < s.cells.length)
+    (hs : d.specialised < s.cells.length) : (writeDieS (writeDieS s d).2 d).1 = (writeDieS s d).1 := by
+  rw [writeDieS_tree, writeDieS_tree, writeDieS_pure s d hb hs]
+
+/-- the in-place variant (`rectangles = self.blockages; rectangles += self.specialized_regions`) is a different
+    program: afterwards the die's blockage list also holds the specialised regions, so the die is altered as soon as
+    there is a specialised region. -/
+theorem die_writer_inplace_variant_alters (s : Store (VRect α)) (d : DieRef α) (hb : d.blockages < s.cells.length)
+    (hne : s.get d.specialised ≠ []) :
+    (d.deref (writeDieAliasedS s d).2).blockages ≠ (d.deref s).blockages := by
+  rw [writeDieAliasedS_alters s d hb]
+  intro h
+  have := congrArg List.length h
+  simp only [DieRef.deref, List.length_append] at this
+  have : (s.get d.specialised).length = 0 := by omega
+  exact hne (List.length_eq_zero_iff.mp this)
+
+/-- the die writer composed with the die CONSTRUCTOR model of C01: for a die built from the parsed input `inp`
+    (positive size; regions as `parse_die_rectangle` admits them), the constructor's parser reads the written document as
+    the same size with the blockages followed by the specialised regions, and the constructor — Hanan grid, ground-region
+    derivation, self-check (`dieCore`), deterministic pick sequence (`detPicks`) — returns on it exactly what it returns
+    on `inp`: the re-read document passes the full constructor checks whenever the source did, with the same regions. -/
+theorem die_roundtrip_constructor (inp : Die.DieIn α) (hW : 0 < inp.W) (hH : 0 < inp.H)
+    (hr : ∀ r ∈ inp.regions, RegionOk r) :
+    ∃ inp', Die.parseDie (toYV (writeDie (dieObjOfIn inp)).1) = .ok inp' ∧
+      inp'.W = inp.W ∧ inp'.H = inp.H ∧ Die.blockOf inp' = Die.blockOf inp ∧ Die.specOf inp' = Die.specOf inp ∧
+      ∀ (ε : Die.Eps α) (fixed : List (Rect α)) (picks : List Die.IRect),
+        Die.dieCore ε inp' fixed picks = Die.dieCore ε inp fixed picks ∧
+        Die.detPicks ε inp' fixed = Die.detPicks ε inp fixed :=
+  ⟨rereadIn inp, die_parse_written inp hW hH hr, rfl, rfl, blockOf_reread inp, specOf_reread inp,
+    fun ε fixed picks => die_ctor_reread ε inp fixed picks⟩
 
 /-- the code AS FOUND (`edge = e.modules`): dumping an edge whose weight is not 1 alters it, and the second dump
     differs from the first.  (Kept to document the defect that fixes/C19_namededges_alias.diff repairs.) -/
@@ -521,20 +592,27 @@ theorem namededges_orig_alters (e : NEdge α) (h : weightIsOne e.weight = false)
     the STOG construction). -/
 theorem floorset_accepted (stog : List (NRect α) → List (NRect α)) (εA eps : α) (f : FsInst α)
     (h : FsInst.WF eps εA f) :
-    parseNetlist stog εA (writeFPEF eps f).1
-      = .ok { modules := (fsModsRead eps f).map (post stog), nets := fsNetsRead f } :=
-  floorset_parseNetlist stog εA eps f h
+    ∃ sx sy, fsShape f = .ok (sx, sy) ∧ writeFPEF eps f = .ok (fpefTree eps sx sy f, fsNets f) ∧
+      parseNetlist stog εA (fpefTree eps sx sy f)
+        = .ok { modules := (fsModsRead eps sx sy f).map (post stog), nets := fsNetsRead f } := by
+  obtain ⟨sx, sy, hs⟩ := fsShape_ok f h.pins_ne
+  exact ⟨sx, sy, hs, by simp [writeFPEF, hs, dumpNamedEdges], floorset_parseNetlist stog εA eps sx sy f h⟩
+
+/-- an instance without pins produces nothing: the converter raises `ValueError` (`max()` of an empty sequence). -/
+theorem floorset_no_pins (eps : α) (f : FsInst α) (h : f.pins = []) :
+    writeFPEF eps f = .error .valueError ∧ writeDIEF f = .error .valueError := by
+  simp [writeFPEF, writeDIEF, fsShape_nopins f h]
 
 /-- the loaded FloorSet netlist is well formed as soon as no connection joins a block to itself. -/
-theorem floorset_wellformed (stog : List (NRect α) → List (NRect α)) (εA eps : α) (f : FsInst α)
+theorem floorset_wellformed (stog : List (NRect α) → List (NRect α)) (εA eps sx sy : α) (f : FsInst α)
     (h : FsInst.WF eps εA f) (hloop : ∀ e ∈ f.b2b, e.1 ≠ e.2.1) :
-    WellFormed ({ modules := (fsModsRead eps f).map (post stog), nets := fsNetsRead f } : Netlist α) := by
-  have hnames : ((fsModsRead eps f).map (post stog)).map (·.name)
+    WellFormed ({ modules := (fsModsRead eps sx sy f).map (post stog), nets := fsNetsRead f } : Netlist α) := by
+  have hnames : ((fsModsRead eps sx sy f).map (post stog)).map (·.name)
       = (List.range f.blocks.length).map modName ++ (List.range f.pins.length).map termName := by
-    rw [← fsModsRead_names eps f]; simp [Function.comp_def, post_name]
+    rw [← fsModsRead_names eps sx sy f]; simp [Function.comp_def, post_name]
   refine ⟨by rw [hnames]; exact fs_names_nodup _ _, ?_, ?_⟩
   · intro m hm
-    have : m.name ∈ ((fsModsRead eps f).map (post stog)).map (·.name) := List.mem_map.mpr ⟨m, hm, rfl⟩
+    have : m.name ∈ ((fsModsRead eps sx sy f).map (post stog)).map (·.name) := List.mem_map.mpr ⟨m, hm, rfl⟩
     rw [hnames] at this
     rcases List.mem_append.mp this with h1 | h1
     · obtain ⟨i, _, hi⟩ := List.mem_map.mp h1; rw [← hi]; exact validIdent_modName i
@@ -565,13 +643,11 @@ theorem floorset_wellformed (stog : List (NRect α) → List (NRect α)) (εA ep
         · exact List.mem_append_left _ (List.mem_map.mpr ⟨_, List.mem_range.mpr hb.2, rfl⟩)
 
 /-- `Die(write_yaml_DIEF())`: accepted, with the width / height spanned by the pins and no regions. -/
-theorem floorset_die_accepted (eps : α) (f : FsInst α)
-    (hx : 0 < maxOf (f.pins.map (·.1))) (hy : 0 < maxOf (f.pins.map (·.2))) :
-    readDie (writeDIEF eps f)
-      = .ok { width := .f (maxOf (f.pins.map (·.1))), height := .f (maxOf (f.pins.map (·.2))),
-              blockages := [], specialised := [] } := by
-  simp [writeDIEF, fsModules, readDie, dieKey, YVal.str?, nodupB, lookup, YVal.num?, Num.val, hx, hy]
-
+theorem floorset_die_accepted (f : FsInst α) (sx sy : α) (hs : fsShape f = .ok (sx, sy)) (hx : 0 < sx) (hy : 0 < sy) :
+    ∃ t, writeDIEF f = .ok t ∧
+      readDie t = .ok { width := .f sx, height := .f sy, blockages := [], specialised := [] } := by
+  refine ⟨.map [(.str "width", .float sx), (.str "height", .float sy)], by simp [writeDIEF, hs], ?_⟩
+  simp [readDie, dieKey, YVal.str?, nodupB, lookup, YVal.num?, Num.val, hx, hy]
 
 /-! ### string-built netlists (the tree their text denotes) -/
 
@@ -642,7 +718,7 @@ example : (htreeEdges 1 (1 : ℚ) 0).length = 10 ∧ htreeSize 2 = 31 := by
 example : FsInst.WF (1 / 1000 : ℚ) 0
     { blocks := [⟨0, 12, [(3, 2, 4, 2), (2, 4, 2, 2)]⟩, ⟨2, 1, [(8, 8, 2, 2)]⟩], pins := [(0, 0), (10, 10)],
       terminalsAsModules := true, alpha := 1, b2b := [(0, 1, 2)], p2b := [(1, 0, 0)] } := by
-  refine ⟨by norm_num, ?_, ?_, ?_, ?_⟩
+  refine ⟨by norm_num, ?_, ?_, by simp, ?_, ?_⟩
   · intro b hb
     simp only [List.mem_cons, List.mem_nil_iff, or_false] at hb
     rcases hb with rfl | rfl
@@ -664,6 +740,65 @@ example : FsInst.WF (1 / 1000 : ℚ) 0
   · intro e he
     simp only [List.mem_cons, List.mem_nil_iff, or_false] at he
     subst he; simp
+
+
+/-- a region list the die constructor's parser admits (blockage + tagged region), for `die_roundtrip_constructor`. -/
+example : ∀ r ∈ ([{ cx := 5, cy := 5, w := 2, h := 1, region := "#" }, { cx := 1, cy := 1, w := 2, h := 2, region := "dsp" }]
+    : List (Rect ℚ)), RegionOk r := by
+  intro r hr
+  simp only [List.mem_cons, List.mem_nil_iff, or_false] at hr
+  rcases hr with rfl | rfl
+  · exact ⟨by norm_num, by norm_num, by norm_num, by norm_num, Or.inr rfl, by decide, rfl, rfl, rfl⟩
+  · exact ⟨by norm_num, by norm_num, by norm_num, by norm_num, Or.inl (by decide), by decide, rfl, rfl, rfl⟩
+
+/-- the store hypotheses of `die_writer_frame` / `die_writer_inplace_variant_alters`: a die whose two lists are objects
+    0 and 1 of the store, with one specialised region. -/
+example : let s : Store (VRect ℚ) := ⟨[[⟨.i 5, .i 5, .i 2, .i 1, "#"⟩], [⟨.i 1, .i 1, .i 2, .i 2, "dsp"⟩]]⟩
+    let d : DieRef ℚ := ⟨.i 8, .i 6, 0, 1⟩
+    d.blockages < s.cells.length ∧ d.specialised < s.cells.length ∧ s.get d.specialised ≠ [] := by
+  refine ⟨by decide, by decide, ?_⟩
+  simp [Store.get]
+
+/-- modules of `solution_to_netlist`: a hard two-rectangle module, a soft module with a centre, a fixed terminal. -/
+example : ∀ m ∈ ([⟨"H", .rects [(.i 1, .i 1, .i 2, .i 2), (.f (5 / 2), .i 1, .i 1, .i 1)], true, false, false, [("_", 5)], 5⟩,
+      ⟨"S", .center (2, 2), false, false, false, [("_", 4)], 4⟩,
+      ⟨"T", .center (0, 3), true, true, true, [], 0⟩] : List (SolMod ℚ)), m.WF 0 := by
+  intro m hm
+  simp only [List.mem_cons, List.mem_nil_iff, or_false] at hm
+  rcases hm with rfl | rfl | rfl
+  · refine ⟨by decide, by simp, ?_, ?_⟩
+    · intro r hr
+      simp only [List.mem_cons, List.mem_nil_iff, or_false] at hr
+      rcases hr with rfl | rfl <;> norm_num [Num4.Ok, Num.val, intToSc]
+    · simp [noOverlap, pairsAll, nrect, NRect.toRect, Rect.overlap, Rect.areaOverlap, Rect.xmin, Rect.xmax, Rect.ymin,
+        Rect.ymax, Rect.two, Rect.zero, Num.val, intToSc, pyMax, pyMin]
+      norm_num
+  · exact ⟨by decide, by simp, by norm_num⟩
+  · exact ⟨by decide, trivial⟩
+
+/-- a state of the legalisation model: a soft and a fixed module with one rectangle each, one weighted net. -/
+example : LfWF (0 : ℚ) [⟨"A", 0, .f 4, [(.i 2, .i 2, .i 2, .i 2)]⟩, ⟨"B", 2, .i 4, [(.i 6, .i 3, .i 2, .i 2)]⟩]
+    [(.f (5 / 2), [0, 1])] := by
+  refine ⟨?_, by decide, ?_, ?_⟩
+  · intro m hm
+    simp only [List.mem_cons, List.mem_nil_iff, or_false] at hm
+    rcases hm with rfl | rfl <;> decide
+  · intro m hm
+    simp only [List.mem_cons, List.mem_nil_iff, or_false] at hm
+    rcases hm with rfl | rfl
+    · refine ⟨by simp, ?_, by norm_num [Num.val], by norm_num, by norm_num⟩
+      intro r hr
+      simp only [List.mem_cons, List.mem_nil_iff, or_false] at hr
+      subst hr; norm_num [Num4.Ok, Num.val, intToSc]
+    · refine ⟨by simp, ?_, by norm_num, by norm_num, ?_⟩
+      · intro r hr
+        simp only [List.mem_cons, List.mem_nil_iff, or_false] at hr
+        subst hr; norm_num [Num4.Ok, Num.val, intToSc]
+      · intro _ _; simp [noOverlap, pairsAll]
+  · intro e he
+    simp only [List.mem_cons, List.mem_nil_iff, or_false] at he
+    subst he
+    exact ⟨by simp, by simp, by norm_num [Num.val]⟩
 
 
 end FV.C19
